@@ -29,6 +29,10 @@ def path(ctx, cfg):
     spec = r.spec
     desc = f"{cfg['alg']}/{cfg['motif']} jds={r.d}"
     el, tops, mids, _ = gc.edge_list_of(r.out)
+    wrong = gc.provenance_ok(r)
+    if wrong is not None:
+        ctx.require(not wrong, "names", lambda: f"{desc}: stubs of one topology were handed to another topology's build callback (call, motif type, columns): {wrong}",
+                    sig="names:callback-of-another-topology")
     show = lambda: f"{desc}: edge_list={el} topologies={tops} motif_id={mids}"
     ctx.require(len(el) == len(tops) == len(mids), "columns-parallel", show,
                 twin=(len(el) + 1 == len(tops) == len(mids)), sig="columns-parallel")
